@@ -181,7 +181,7 @@ def _escaping_touch(want, have):
     return None
 
 
-def _judge(want, have, closure=(), depth=0):
+def _judge(want, have, closure=(), depth=0, conds=None):
     """two outcomes of the same case differ: is that a positively identified change of behaviour?
     -> ('bad', why) | ('undecided', why).  `closure`: variables of the enclosing function (state the function shares with its
     siblings: how it is represented -- a one-element list, a rebound nonlocal -- is not visible in one function alone)."""
@@ -195,6 +195,10 @@ def _judge(want, have, closure=(), depth=0):
                 if lw == lh:
                     continue
                 rw, rh = _parse_loop(lw), _parse_loop(lh)
+                # the tails of a nested loop list every local it assigns, read later or not: only the steps are compared
+                if rw is not None and rh is not None:
+                    rw = [(c, o.split(' || ')[0]) for c, o in rw]
+                    rh = [(c, o.split(' || ')[0]) for c, o in rh]
                 if rw is None or rh is None or lw.split('{')[0] != lh.split('{')[0]:
                     return 'undecided', 'the outcomes differ inside a nested loop that cannot be compared row by row'
                 st, det = dtable.check_rows(rh, rw)
@@ -238,8 +242,17 @@ def _judge(want, have, closure=(), depth=0):
                 return True
             # a free name of the function (neither a parameter nor a local of it): a variable of the enclosing function / module
             return own is not None and root.isidentifier() and root not in own and not _re.fullmatch(r'(obj\d+|__\d+|old\d+|_acc_\w+|_fin_\w+|_elem_\w+|outer_\d+)', root)
+        # a one-sided store of a falsy constant into something the case assumes to be falsy may store what is already there
+        if (missing or extra) and not (missing and extra) and conds is not None:
+            texts = [t for k, h, t in (we if missing else he) if (k, h) in (missing or extra)]
+            idem = all(k == 'store' for k, _ in missing + extra) and texts and all(
+                t.split(' = ', 1)[-1].strip() in ('None', 'False', '0', "''", '[]') and conds.get(t[6:].split(' = ')[0]) is False for t in texts)
+            if idem:
+                return 'undecided', 'a falsy constant is stored into something this case assumes to be falsy: possibly what it already holds'
         if missing and extra and all(k == 'store' and is_shared(h) for k, h in missing + extra):
             return 'undecided', 'the state shared with the enclosing function is stored differently (%s instead of %s): not decidable from this function alone' % (extra or '-', missing or '-')
+        if any(k == 'call' and h in ('map', 'filter', 'list', 'sorted', 'any', 'all', 'sum', 'some', 'zip', 'enumerate', 'reversed', 'tuple', 'dict', 'set') for k, h in missing + extra):
+            return 'undecided', 'an iteration idiom (map / filter / comprehension / loop) is spelled differently'
         if any(k in ('store', 'call') for k, _ in missing + extra) or (missing + extra and all(k == 'exit' for k, _ in missing + extra)):
             return 'bad', 'the externally visible steps differ (not in the reviewed behaviour: %s; missing: %s)' % (extra or '-', missing or '-')
         return 'undecided', 'different steps on local objects'
@@ -325,7 +338,7 @@ def check_table(p, res, rname, fq, message, detectors=()):
         else:
             for wc, wo, hc, ho in det[:2]:
                 when = ' and '.join(('%s' if v else 'not (%s)') % k for k, v in sorted(hc.items())) or 'always'
-                kind, why = _judge(wo, ho, closure)
+                kind, why = _judge(wo, ho, closure, 0, hc)
                 if kind == 'bad' and coupled and ('_fin_' in wo + ho or '_acc_' in wo + ho or any('_fin_' in k or '_acc_' in k for k in list(wc) + list(hc))):
                     kind, why = 'undecided', 'another segment of the loop can no longer be compared, and this case depends on the loop-carried values'
                 if kind == 'bad':
